@@ -3,7 +3,7 @@
    (valid, with compressed messages, every inflater), Proofs/ReaderViolP.v (first violation). *)
 From Coq Require Import List NArith ZArith Bool.
 From WS Require Import Base.Words Gen.Consts Model.Mask Model.Frame Model.Proto Model.CloseCodec Model.RefDecoder Model.Reader
-  Model.Script Model.ScriptZ Proofs.FrameP Proofs.ReaderP Proofs.ReaderRefP Proofs.ReaderZP Proofs.ReaderCutP Proofs.ReaderViolP.
+  Model.Script Model.ScriptZ Proofs.FrameP Proofs.ReaderP Proofs.ReaderRefP Proofs.ReaderZP Proofs.ReaderCutP Proofs.ReaderViolP Proofs.ReaderSeqViolP.
 Import ListNotations.
 Open Scope N_scope.
 
@@ -118,3 +118,39 @@ Theorem C03_first_violation_mid : forall cfg inflate ms sizes t f0 fs n cs h tai
   r_inq (snd r) = tail /\ r_closed (snd r) = false /\ r_close_sent (snd r) = closes_1002 cfg h.
 Proof. exact reader_first_violation_mid. Qed.
 Print Assumptions C03_first_violation_mid.
+
+
+(* ---- SEQUENCE violations (headers that are fine in themselves) ----
+   (S1) a continuation frame when no message is in progress, after valid messages and any valid control frames: the Reader call
+   fails, Close 1002 is written after the Pongs, only the offending frame's header is consumed. *)
+Theorem C03_continuation_without_message : forall cfg inflate ms sizes cs h p tail e more,
+  Forall wf_smsg ms -> length sizes = length ms -> Forall (fun n => 0 < n)%nat sizes ->
+  Forall wf_ctl cs ->
+  let masked := role_eqb (rc_role cfg) Server in
+  plain_hdr masked h -> h_opc h = 0 ->
+  let stream := enc_script masked ms ++ concat (map (enc_ctl masked) cs) ++ enc_frame (h, p) ++ tail in
+  let r := run cfg inflate (-1)%Z stream e (read_ops sizes ++ OReader :: more) in
+  fst r = expected_obs ms ++ [ObReader (inr REOther)] /\
+  r_replies (snd r) = expected_pongs_written ms ++ pw cs ++ [RpClose c_StatusProtocolError None] /\
+  r_pongs (snd r) = expected_pong_notes ms ++ pn cs /\
+  r_inq (snd r) = wire masked (h_key h) p ++ tail /\
+  r_closed (snd r) = false /\ r_close_sent (snd r) = true.
+Proof. exact reader_continuation_without_message. Qed.
+Print Assumptions C03_continuation_without_message.
+
+(* (S2) a new text / binary frame while a fragmented message is in progress: the fragments received so far are handed out, the
+   read of the message fails, Close 1002 is written. *)
+Theorem C03_data_frame_inside_message : forall cfg inflate ms sizes t f0 fs n cs h p tail e more,
+  Forall wf_smsg ms -> length sizes = length ms -> Forall (fun n => 0 < n)%nat sizes ->
+  (t = 1 \/ t = 2) -> wf_frag f0 -> Forall wf_frag fs -> (0 < n)%nat ->
+  Forall wf_ctl cs ->
+  let masked := role_eqb (rc_role cfg) Server in
+  plain_hdr masked h -> (h_opc h = 1 \/ h_opc h = 2) ->
+  let stream := enc_script masked ms ++ enc_open_msg masked t f0 fs ++ concat (map (enc_ctl masked) cs) ++ enc_frame (h, p) ++ tail in
+  let r := run cfg inflate (-1)%Z stream e (read_ops sizes ++ OReader :: OReadAllN n :: more) in
+  fst r = expected_obs ms ++ [ObReader (inl t); ObMsg (bodies (f0 :: fs)) (Some REOther)] /\
+  r_replies (snd r) = expected_pongs_written ms ++ pw (ctls (f0 :: fs)) ++ pw cs ++ [RpClose c_StatusProtocolError None] /\
+  r_pongs (snd r) = expected_pong_notes ms ++ pn (ctls (f0 :: fs)) ++ pn cs /\
+  r_inq (snd r) = wire masked (h_key h) p ++ tail /\ r_closed (snd r) = false /\ r_close_sent (snd r) = true.
+Proof. exact reader_data_frame_inside_message. Qed.
+Print Assumptions C03_data_frame_inside_message.
